@@ -127,6 +127,35 @@ Section Spec.
     | t :: r => unamb t (comps_text r ++ kend) /\ unamb_seq r kend
     end.
 
+  (* [unamb] is decidable: the boolean version (sound, Proofs/LexPFinal.v unamb_b_sound) is what
+     the correspondence check compares with the harness's restatement of the known class K5 *)
+  Definition atom_unamb_b (p n k : str) : bool :=
+    match match_prefix (c_prefixes C) (p ++ n ++ k) with Some q => str_eqb q p | None => false end &&
+    forallb (fun i => match match_prefix (c_copulas C) (drop i n ++ k) with None => true | Some _ => false end)
+            (seq 0 (length n)).
+
+  Fixpoint unamb_b (t : lterm) (k : str) {struct t} : bool :=
+    match t with
+    | LAtom p n => atom_unamb_b p n k
+    | LCompound _ ts =>
+        (fix useq (ts : list lterm) : bool :=
+           match ts with
+           | [] => true
+           | t :: r => unamb_b t (comps_text r ++ cr ++ k) && useq r
+           end) ts
+    | LSet _ ts rb =>
+        (fix useq (ts : list lterm) : bool :=
+           match ts with
+           | [] => true
+           | t :: r => unamb_b t (comps_text r ++ rb ++ k) && useq r
+           end) ts
+    | LStatement c s p => unamb_b s (c ++ f0 p ++ sr ++ k) && unamb_b p (sr ++ k)
+    end.
+
+  Definition top_term (v : lnarsese) : lterm :=
+    match v with NTerm t => t | NSentence s => ls_term s | NTask k => ls_term (lt_sentence k) end.
+  Definition unamb_top_b (v : lnarsese) : bool := unamb_b (top_term v) [].
+
   (* ---- table obligations of the term layer ---- *)
   Definition bracket_lefts : list str := map fst (c_set_brackets C) ++ [cl; sl].
   Definition bracket_rights : list str := map snd (c_set_brackets C) ++ [cr; sr].
